@@ -77,6 +77,7 @@ def path_fn(plan: dict[str, Any]) -> Callable[[symx.Engine], Any]:
             "sample": [f"{e['worker']}:{monitors._short(e['bridged'])}={e.get('status')}" for e in run.trace if e["kind"] == "start"]
             + [f"{e['worker']}:unset:{r[0].split('|')[0]}:{r[1]}" for e in run.trace if e["kind"] == "door" and e["action"] == "unset" for r in e["requests"]],
             "pool": [f"{w}:{o.split('|')[0]}:{s}={v}" for (w, o, s, v) in run.asked],
+            "real_agree": run.real_agree, "real_disagree": run.real_disagree,
         }
         if findings:
             raise symx.Violation(findings[0][1], {"findings": findings, "decisions": eng.decisions_vector(), "summary": summary})
@@ -114,6 +115,9 @@ def _factory():
             col.count("paths_with_missing_state")
         if summary["unsets"]:
             col.count("paths_with_unset")
+        if summary.get("real_agree") or summary.get("real_disagree"):
+            col.count("real_layer_agrees_with_model", summary["real_agree"])
+            col.count("real_layer_disagrees_with_model", summary["real_disagree"])
         col.states.add(tuple(summary["sample"]) + tuple(summary["pool"]))
         if len(col.samples) < 2 and summary["workers_active"] > 1:
             col.samples.append({"scenario": plan["scenario"].name, "executions": summary["sample"], "pool": summary["pool"]})
